@@ -58,6 +58,13 @@ func (s *bgH) Setup() {
 		s.m.Apply(op, fmt.Sprintf("v%d", 1000+i))
 		x.D.VerifWaitIdle()
 	}
+	for i, op := range s.sc.hist {
+		if op.K == "ingest" || op.K == "ingestexcise" {
+			if err := x.Prebuild(i, op); err != nil {
+				panic(err)
+			}
+		}
+	}
 }
 
 func (s *bgH) fail(class, msg string) {
